@@ -1454,29 +1454,136 @@ var rR11e = RuleRef{Name: "R11e", Doc: "read commands have no write effect: the 
 }}
 
 // R1t: the glob matcher's recursion strictly shrinks its pattern.
-var rR1t = RuleRef{Name: "R1t", Doc: "termination of the glob matcher: every self-recursive call passes a strict suffix of the pattern (pattern[e:] with e >= 1 proven), so the recursion depth is bounded by the pattern length", Run: func(c *C) {
+var rR1t = RuleRef{Name: "R1t", Doc: "termination of the glob matcher: every cycle of calls that leads from the matcher back to itself (directly, or through helpers of its package) hands on a strict suffix of the pattern somewhere (pattern[e:] with e >= 1 proven) and never anything but the pattern or a suffix of it elsewhere, so the recursion depth is bounded by the pattern length", Run: func(c *C) {
 	fn := c.P.Func("util", "PattenMatch")
 	if fn == nil {
 		c.Undecided("R1t", "anchor util.PattenMatch")
 		return
 	}
-	p := c.newProver(fn)
-	n := 0
-	for _, b := range fn.Blocks {
-		for _, in := range b.Instrs {
-			call, ok := in.(*ssa.Call)
-			if !ok || callee(call) != fn {
-				continue
+	// the functions on a call cycle through the matcher
+	reach := func(from *ssa.Function) map[*ssa.Function]bool {
+		seen := map[*ssa.Function]bool{}
+		var walk func(f *ssa.Function)
+		walk = func(f *ssa.Function) {
+			for _, b := range f.Blocks {
+				for _, in := range b.Instrs {
+					if ci, ok := in.(ssa.CallInstruction); ok {
+						if cf := callee(ci); cf != nil && cf.Pkg == fn.Pkg && len(cf.Blocks) > 0 && !seen[cf] {
+							seen[cf] = true
+							walk(cf)
+						}
+					}
+				}
 			}
-			n++
-			sl, ok := call.Call.Args[0].(*ssa.Slice)
-			good := false
-			if ok && sl.X == ssa.Value(fn.Params[0]) && sl.Low != nil {
-				good = p.ProveLE(lt{"0", 1}, p.lin(sl.Low), 0, call)
-			}
-			c.Add("R1t", fnName(fn), fmt.Sprintf("recursive call #%d shrinks the pattern", n), call.Pos(), good, "the pattern argument must be pattern[e:] with e >= 1")
+		}
+		walk(from)
+		return seen
+	}
+	scc := map[*ssa.Function]bool{}
+	for f := range reach(fn) {
+		if f == fn || reach(f)[fn] {
+			scc[f] = true
 		}
 	}
+	if !scc[fn] {
+		// no recursion at all: nothing to bound
+		c.Count("R1t_recursive_calls", 0)
+		c.Add("R1t", fnName(fn), "the matcher is recursive (the '*' element is matched by trying every split)", fn.Pos(), false, "no call cycle through the matcher was found: the rule's anchor is gone")
+		return
+	}
+	// in each function of the cycle: which parameter is (a suffix of) the pattern. In the matcher it is parameter 0;
+	// in a helper it is a parameter that receives the pattern or a suffix of it at every call from the cycle.
+	patParam := map[*ssa.Function]int{fn: 0}
+	type edge struct {
+		from, to *ssa.Function
+		call     *ssa.Call
+	}
+	var edges []edge
+	for f := range scc {
+		for _, b := range f.Blocks {
+			for _, in := range b.Instrs {
+				if call, ok := in.(*ssa.Call); ok {
+					if cf := callee(call); cf != nil && scc[cf] {
+						edges = append(edges, edge{f, cf, call})
+					}
+				}
+			}
+		}
+	}
+	// derived(v, f): v is f's pattern parameter or a suffix of it; strict: a suffix that drops at least one byte
+	derived := func(v ssa.Value, f *ssa.Function, at ssa.Instruction) (ok, strict bool) {
+		pi, have := patParam[f]
+		if !have {
+			return false, false
+		}
+		pr := c.newProver(f)
+		for i := 0; i < 4; i++ {
+			if v == ssa.Value(f.Params[pi]) {
+				return true, strict
+			}
+			sl, isSl := v.(*ssa.Slice)
+			if !isSl || sl.High != nil {
+				return false, false
+			}
+			if sl.Low != nil && pr.ProveLE(lt{"0", 1}, pr.lin(sl.Low), 0, at) {
+				strict = true
+			}
+			v = sl.X
+		}
+		return false, false
+	}
+	for iter := 0; iter < 4; iter++ {
+		for _, e := range edges {
+			if _, have := patParam[e.to]; have {
+				continue
+			}
+			for ai, a := range e.call.Call.Args {
+				if ok, _ := derived(a, e.from, e.call); ok && ai < len(e.to.Params) {
+					patParam[e.to] = ai
+				}
+			}
+		}
+	}
+	n := 0
+	strictEdge := map[int]bool{}
+	for k, e := range edges {
+		n++
+		pi, have := patParam[e.to]
+		good := false
+		if have && pi < len(e.call.Call.Args) {
+			ok, strict := derived(e.call.Call.Args[pi], e.from, e.call)
+			good = ok
+			strictEdge[k] = ok && strict
+		}
+		c.Add("R1t", fnName(e.from), fmt.Sprintf("recursive call #%d hands on the pattern or a suffix of it", n), e.call.Pos(), good, "the pattern argument of a call on the recursion cycle must be the pattern or pattern[e:]")
+	}
+	// every cycle contains a strict edge: without the strict edges no function of the cycle reaches itself
+	cyc := false
+	for f := range scc {
+		seen := map[*ssa.Function]bool{}
+		var walk func(g *ssa.Function) bool
+		walk = func(g *ssa.Function) bool {
+			for k, e := range edges {
+				if e.from != g || strictEdge[k] {
+					continue
+				}
+				if e.to == f {
+					return true
+				}
+				if !seen[e.to] {
+					seen[e.to] = true
+					if walk(e.to) {
+						return true
+					}
+				}
+			}
+			return false
+		}
+		if walk(f) {
+			cyc = true
+		}
+	}
+	c.Add("R1t", fnName(fn), "every recursion cycle of the matcher shrinks the pattern strictly", fn.Pos(), !cyc, "a cycle of calls returns to the same function without dropping a pattern byte (pattern[e:] with e >= 1 proven) anywhere")
 	c.Count("R1t_recursive_calls", n)
 	c.Min("R1t_recursive_calls", 1)
 }}
@@ -1629,7 +1736,6 @@ func sendsProposal(h *ssa.Function) bool {
 	}
 	return false
 }
-
 
 // predicateConsts: the string constants a function compares something with.
 func predicateConsts(fn *ssa.Function) []string {
@@ -1813,7 +1919,6 @@ func rejectsFor(fn *ssa.Function, str string) bool {
 	})
 	return n > 0 && all
 }
-
 
 var simDepth int
 
